@@ -40,7 +40,8 @@ type Module struct {
 	Len     int    // total bytes incl. the length prefix
 	RG, Col int
 	PageOrd int
-	PageIdx int // index in the chunk's page list
+	PageIdx int    // index in the chunk's page list
+	Plain   []byte // decrypted content, when the reference reader decrypted the module
 }
 
 // EncFile is a decrypted view of an encrypted file.
@@ -218,10 +219,18 @@ func ParseEncrypted(data []byte, keys Keys, mt ModuleTypes) (*EncFile, error) {
 			}
 			// page index and bloom filter modules (located by the offsets of the metadata)
 			if off, ln := cc.Int(4, 0), cc.Int(5, 0); off > 0 && ln > 0 {
-				ef.Modules = append(ef.Modules, Module{Kind: "offset-index", Offset: off, Len: int(ln), RG: gi, Col: ci})
+				m := Module{Kind: "offset-index", Offset: off, Len: int(ln), RG: gi, Col: ci}
+				if off+ln <= int64(len(data)) {
+					m.Plain, _ = OpenModule(key, aad(ef.Prefix, ef.FileUnique, mt.OffsetIndex, gi, ci), data[off:off+ln])
+				}
+				ef.Modules = append(ef.Modules, m)
 			}
 			if off, ln := cc.Int(6, 0), cc.Int(7, 0); off > 0 && ln > 0 {
-				ef.Modules = append(ef.Modules, Module{Kind: "column-index", Offset: off, Len: int(ln), RG: gi, Col: ci})
+				m := Module{Kind: "column-index", Offset: off, Len: int(ln), RG: gi, Col: ci}
+				if off+ln <= int64(len(data)) {
+					m.Plain, _ = OpenModule(key, aad(ef.Prefix, ef.FileUnique, mt.ColumnIndex, gi, ci), data[off:off+ln])
+				}
+				ef.Modules = append(ef.Modules, m)
 			}
 			if off := ch.Meta.Int(14, 0); off > 0 {
 				if hl, err := moduleLen(data, off); err == nil {
@@ -276,7 +285,7 @@ func (ef *EncFile) WalkEncryptedChunk(gi, ci int, key []byte, mt ModuleTypes) er
 		if h, _, err = ReadThriftStruct(plain); err != nil {
 			return fmt.Errorf("page header at %d: %w", pos, err)
 		}
-		ef.Modules = append(ef.Modules, Module{Kind: kind, Offset: pos, Len: hl, RG: gi, Col: ci, PageOrd: pageOrd, PageIdx: len(c.Pages)})
+		ef.Modules = append(ef.Modules, Module{Kind: kind, Offset: pos, Len: hl, RG: gi, Col: ci, PageOrd: pageOrd, PageIdx: len(c.Pages), Plain: plain})
 		bpos := pos + int64(hl)
 		bl, err := moduleLen(ef.Data, bpos)
 		if err != nil {
@@ -297,7 +306,7 @@ func (ef *EncFile) WalkEncryptedChunk(gi, ci int, key []byte, mt ModuleTypes) er
 		if err != nil {
 			return fmt.Errorf("page body module at %d: %w", bpos, err)
 		}
-		ef.Modules = append(ef.Modules, Module{Kind: kind, Offset: bpos, Len: bl, RG: gi, Col: ci, PageOrd: pageOrd, PageIdx: len(c.Pages)})
+		ef.Modules = append(ef.Modules, Module{Kind: kind, Offset: bpos, Len: bl, RG: gi, Col: ci, PageOrd: pageOrd, PageIdx: len(c.Pages), Plain: body})
 		p := PPage{Offset: pos, HeaderLen: hl, BodyOffset: bpos, Header: h, Type: int(h.Int(1, -1)), UncompSize: int(h.Int(2, -1)), CompSize: int(h.Int(3, -1)), Plain: body}
 		if p.CompSize != len(body) {
 			return fmt.Errorf("page at %d: compressed_page_size %d but the decrypted body has %d bytes", pos, p.CompSize, len(body))
